@@ -52,21 +52,27 @@ func InstallHook() {
 func AddHookSink(fn func(txfile.VerifEvent)) func() {
 	hookMu.Lock()
 	defer hookMu.Unlock()
-	hookSinks = append(append([]func(txfile.VerifEvent){}, hookSinks...), fn)
-	idx := len(hookSinks) - 1
+	sinkSeq++
+	id := sinkSeq
+	sinkByID[id] = fn
+	rebuildSinks()
 	return func() {
 		hookMu.Lock()
 		defer hookMu.Unlock()
-		n := make([]func(txfile.VerifEvent), 0, len(hookSinks))
-		for i, f := range hookSinks {
-			if i != idx {
-				n = append(n, f)
-			}
-		}
-		if idx < len(hookSinks) {
-			hookSinks = n
-		}
+		delete(sinkByID, id)
+		rebuildSinks()
 	}
+}
+
+var sinkSeq int
+var sinkByID = map[int]func(txfile.VerifEvent){}
+
+func rebuildSinks() {
+	n := make([]func(txfile.VerifEvent), 0, len(sinkByID))
+	for _, f := range sinkByID {
+		n = append(n, f)
+	}
+	hookSinks = n
 }
 
 // Proc is a goroutine under scheduler control.
